@@ -154,6 +154,58 @@ class State:
             self.field_len[key] = z3.Store(la, so.ref, ops.blen(vt))
 
 
+class AttrDict:
+    """obj.__dict__ of a concrete-identity object: a live view of its instance attributes (string keys only)"""
+    def __init__(self, obj):
+        self.obj = obj
+
+    def _key(self, ip, k):
+        if not isinstance(k, str):
+            raise Unsupported('__dict__ with a key that is not a constant string')
+        return k
+
+    def pv_getitem(self, ip, k):
+        k = self._key(ip, k)
+        if k not in self.obj.attrs:
+            ip.ctx.raise_exc('KeyError', k)
+        return self.obj.attrs[k]
+
+    def pv_setitem(self, ip, k, val):
+        if self.obj.frozen:
+            raise Unsupported('write to a frozen (snapshot) object')
+        self.obj.attrs[self._key(ip, k)] = val
+
+    def pv_contains(self, ip, k):
+        return self._key(ip, k) in self.obj.attrs
+
+    def pv_truth(self, ip):
+        return len(self.obj.attrs) > 0
+
+    def pv_getattr(self, ip, name):
+        o = self.obj
+        if name == 'get':
+            return Builtin('__dict__.get', lambda ip, k, d=None: o.attrs.get(self._key(ip, k), d))
+        if name == 'pop':
+            def pop(ip, k, *d):
+                k = self._key(ip, k)
+                if o.frozen:
+                    raise Unsupported('write to a frozen (snapshot) object')
+                if k in o.attrs:
+                    return o.attrs.pop(k)
+                if d:
+                    return d[0]
+                ip.ctx.raise_exc('KeyError', k)
+            return Builtin('__dict__.pop', pop)
+        if name == 'setdefault':
+            def setdefault(ip, k, d=None):
+                k = self._key(ip, k)
+                if k not in o.attrs:
+                    o.attrs[k] = d
+                return o.attrs[k]
+            return Builtin('__dict__.setdefault', setdefault)
+        raise Unsupported('__dict__.%s' % name)
+
+
 class Interp:
     def __init__(self, ctx, repo=None):
         self.ctx = ctx
@@ -428,7 +480,7 @@ class Interp:
             if name == '__class__':
                 return ClassVal(v.cls)
             if name == '__dict__':
-                raise Unsupported('__dict__')
+                return AttrDict(v)
             if v.cls is not None:
                 found, a = self.class_attr(v.cls, name)
                 if found:
@@ -543,9 +595,17 @@ class Interp:
         if isinstance(v, Obj):
             if v.frozen:
                 raise Unsupported('write to a frozen (snapshot) object')
+            if v.cls is not None and not getattr(self, '_raw_setattr', False):
+                m = v.cls.find_method('__setattr__')
+                if m is not None:
+                    # the class (or a base) overrides attribute assignment: run it
+                    self.call_function(m, [v, name, value], {})
+                    return
             v.attrs[name] = value
             return
         if isinstance(v, SymObj):
+            if v.cls is not None and v.cls.find_method('__setattr__') is not None:
+                raise Unsupported('__setattr__ override on a symbolic object')
             self.state.write_field(v, name, value)
             return
         if isinstance(v, ClassVal):
@@ -561,6 +621,15 @@ class Interp:
         if v is None:
             self.ctx.raise_exc('AttributeError', "'NoneType' object has no attribute '%s'" % name)
         raise Unsupported('setattr on %r' % (v,))
+
+    def raw_setattr(self, v, name, value):
+        """object.__setattr__: stores the attribute without consulting an override"""
+        prev = getattr(self, '_raw_setattr', False)
+        self._raw_setattr = True
+        try:
+            self.setattr(v, name, value)
+        finally:
+            self._raw_setattr = prev
 
     # ------------------------------------------------------------------ truthiness & booleans
     def truth(self, v):
